@@ -25,6 +25,7 @@ RULE = ("case = random family + type (no Any leaves) x no_copy set N (random sub
         "shared set must EQUAL the predicted set (extra sharing = missing copy, missing sharing = no-copy not honoured). "
         "Decode: result shares no container with the input (also containers of Any elements and bare list / dict, alone, Optional, as union members and as fields: the container itself is typed). distinct_nontrivial = distinct (type shape, N, value "
         "fingerprint) triples with at least one mutable container.")
+RULE += " Additions: decode through the wrapper class and from_<format>(decoder=identity); pass_through inherited across three levels with a plain re-declaration in the middle."
 ASSUMPTIONS = ["sharing is predicted from the annotation's origin, not the runtime class",
                "Any / pass_through positions are excluded (opaque)"]
 BUDGET_S = {"quick": 150, "thorough": 1200}
